@@ -53,6 +53,10 @@ NEUTRAL = "a term that is only applied under a test of its own parameter is skip
 rule("C05.m", "storage: " + NEUTRAL, floor=1)
 rule("C06.l", "plant / CHP: " + NEUTRAL, floor=0)
 rule("C02.h", "contracts and transports: " + NEUTRAL, floor=0)
+rule("C14.o", "what a function is given under a name, it hands on under that name: when a call inside the package passes a local whose name is "
+              "one of the callee's parameters, it is bound to *that* parameter (positional arguments are matched to the callee's signature first) - "
+              "two options swapped in a forwarding call (make_soft_problem <-> solver_params in the split problem) reach every interval problem as "
+              "the other one", floor=20, props=["C14", "C03", "C10"])
 rule("C11.h", "the JSON writer decides 'naive' by `tzinfo is None` (a None test), never by the truthiness of an offset "
               "(timedelta(0) is falsy: UTC would be saved as naive)", floor=1)
 rule("C09.f", "a numpy array created from one name is not assigned other names by item (fixed string width truncates them: the mapping would "
@@ -71,7 +75,7 @@ def _prop_rule(fn):
     return "C07.n"
 
 
-@analysis("siblings", ["C07.n", "C02.f", "C19.f", "C07.o", "C09.f", "C07.p", "C11.h", "C03.g", "C07.t", "C04.g", "C05.m", "C06.l", "C02.h", "C12.g", "C07.y", "C19.l", "C16.k", "C07.v", "C12.j"])
+@analysis("siblings", ["C07.n", "C02.f", "C19.f", "C07.o", "C09.f", "C07.p", "C11.h", "C03.g", "C07.t", "C04.g", "C05.m", "C06.l", "C02.h", "C12.g", "C07.y", "C19.l", "C16.k", "C07.v", "C12.j", "C14.o"])
 def run(ctx):
     p = ctx.p
     # ================================================================= C07.n decided branches
@@ -772,3 +776,46 @@ def run(ctx):
                        "(UTC, London in winter) is falsy, so zone-aware dates are saved without zone and load back naive" % au.short(st.test, 40), node=st)
     if not found:
         ctx.ob("C11.h", "serialization", "naive test", None, "the writer's branch that stores __tz__ = None was not found")
+
+
+    # ================================================================= C14.o forwarded names reach their own parameter
+    n_o = 0
+    for fno in sorted(p.all_functions(), key=lambda f: f.qualname):
+        if fno.parent is not None:
+            continue
+        own = {q.name for q in fno.params}
+        for c in p.calls_in(fno):
+            targets = p.resolve_call(c, fno)
+            if not targets or len(targets) > 4:
+                continue
+            # receivers that are not resolved give every function of that name: keep those whose signature fits the call
+            fits = []
+            for t1 in targets:
+                nm1 = [q.name for q in t1.params]
+                if all(k.arg in nm1 for k in c.keywords if k.arg) and len(c.args) <= len(nm1):
+                    fits.append(t1)
+            sigs = {tuple(q.name for q in t1.params if q.name not in ("self", "cls")) for t1 in fits}
+            if not fits or len(sigs) != 1:
+                continue
+            t0 = fits[0]
+            names = [q.name for q in t0.params]
+            off = 1 if (t0.cls is not None and t0.parent is None and names and names[0] in ("self", "cls")) else 0
+            bound = []
+            if not any(isinstance(a, ast.Starred) for a in c.args):
+                for i2, a in enumerate(c.args):
+                    if i2 + off < len(names):
+                        bound.append((names[i2 + off], a))
+            bound += [(k.arg, k.value) for k in c.keywords if k.arg]
+            cand = [(k, v) for k, v in bound if isinstance(v, ast.Name) and v.id in names[off:] and v.id in own]
+            for k, v in cand:
+                n_o += 1
+                ok = k == v.id
+                # a deliberate re-binding uses another local name; here the *same* name exists as a parameter of the callee, which in turn gets something else
+                twin = next((v2 for k2, v2 in bound if k2 == v.id), None)
+                ctx.ob("C14.o", fno, "%s(... %s=%s ...)" % (au.method_name(c) or "?", k, v.id), ok or twin is None or (isinstance(twin, ast.Name) and twin.id == v.id),
+                       "%s passes its own `%s` to the parameter `%s` of %s, while `%s` of the callee receives %s: two arguments are swapped (positional order "
+                       "differs from the callee's signature). optimize(make_soft_problem=True) on a split problem lands in solver_params - the intervals are "
+                       "solved as MIPs, the split value (25.04) is no longer the sum of the relaxed interval optima (29.32)" % (
+                           fno.qualname, v.id, k, t0.qualname, v.id, au.short(twin, 30) if twin is not None else "nothing"), node=c,
+                       trivial=True)
+    ctx.require(n_o >= 20, "fewer than 20 forwarded arguments found in the package", rules=["C14.o"])
